@@ -299,7 +299,17 @@ func (self *PipelineRetains) format(printer *printer) {
 	printer.printComments(&self.Node, INDENT)
 	printer.mustWriteString(INDENT)
 	printer.mustWriteString("retain (\n")
-	for _, ref := range self.Refs {
+	for i, ref := range self.Refs {
+		node := ref.Node
+		if i == 0 {
+			// The first entry inherited the comments of the retain block
+			// itself, which were printed above.
+			node.scopeComments = node.scopeComments[min(
+				len(self.Node.scopeComments), len(node.scopeComments)):]
+			node.Comments = node.Comments[min(
+				len(self.Node.Comments), len(node.Comments)):]
+		}
+		printer.printComments(&node, INDENT+INDENT)
 		printer.mustWriteString(INDENT)
 		printer.mustWriteString(INDENT)
 		ref.format(printer, INDENT+INDENT)
